@@ -63,7 +63,7 @@ DIMENSIONS = {
     'note_pad': ['tight', 'padded'],           # multi-line text: blank lines around, extra indentation
     'space': [' ', '  ', '\t'],
     'comment_style': ['line', 'block'],
-    'comment_place': ['above', 'trailing'],                # separator between tokens on a line
+    'comment_place': ['above', 'trailing', 'both'],                # separator between tokens on a line
 }
 
 
@@ -183,9 +183,13 @@ class Printer:
         if not comment:
             return lines
         one = '\n' not in dec(comment)
-        if can_trail and one and (not can_above or self.f.pick('comment_place') == 'trailing'):
+        place = self.f.pick('comment_place')
+        if can_trail and one and (not can_above or place in ('trailing', 'both')):
             lines = list(lines)
             lines[trail_line] += self.comment_trailing(comment) + '\x01'      # \x01: line already ends in a comment
+            if place == 'both' and can_above:
+                # a different comment directly above as well: the trailing one wins
+                return self.comment_above(enc('superseded: written above'), depth) + lines
             return lines
         assert can_above, 'comment %r cannot be written' % comment
         return self.comment_above(comment, depth) + lines
